@@ -377,7 +377,9 @@ func r2parseOperandSource(e *r2parseEngine) []Obligation {
 				if fd == e.exprFd {
 					R.checkLoop(st, results)
 				}
-				if R.producers[fn] && !R.loopBuild[fn] && !R.family[fd] && class != "prefix" && class != "right" {
+				// (a producer that merely forwards expression(p) — a transparent wrapper — is an operand
+				// producer all the same: only the climbing method itself is exempt)
+				if R.producers[fn] && !R.loopBuild[fn] && fd != e.exprFd && class != "prefix" && class != "right" {
 					R.checkTail(fkey, fd, st)
 				}
 			}
@@ -649,6 +651,11 @@ func (R *r2parseOperandRule) classify(run *r2parseRun, cx *r2parseContext, selec
 		}
 		if b != nil && b.k == r2parseCall {
 			return Discharged, "field " + v.sel + " of the result of " + b.fn.Name() + "()"
+		}
+		if b != nil && b.k == r2parseParam {
+			// a component of the operand the caller handed over (p.(T).F, also after p = p.(T).F in a loop):
+			// still that operand's tree, minus a wrapper that carries no meaning
+			return Discharged, "component " + v.sel + " of parameter " + b.obj.Name() + " (operand handed over by the caller)"
 		}
 		return Undecided, "operand is " + v.desc + ": provenance not understood"
 	case r2parseNode:
